@@ -32,7 +32,7 @@ def ga(q=1, t=6, shards_q=4, shards_t=16):
 
 
 GA = "gated: for every pair (yield point inside a critical window: 16 reached by the processor, 8 by a client; entry points of the store and policy operations included) x (racing operation: clear, remove/update/look-up of the same key, insert/remove of another key, in-place write, tick, wait, insert_if_present on a still-buffered and on a resident key) " \
-     "the thread is parked at the point on the real code while the racing operation runs to completion (or is seen to wait for the parked thread), then the history is quiesced and judged; quick: a third of the pairs per flavour, thorough: all pairs x 4 flavours x 6 seeds"
+     "the thread is parked at the point on the real code while the racing operation runs to completion (or is seen to wait for the parked thread), then the history is quiesced and judged; quick: all pairs x 2 flavours, thorough: all pairs x 4 flavours x 6 seeds"
 
 
 def ho(prop, q=40, t=600, shards_q=4, shards_t=16, flavors=None):
